@@ -253,7 +253,7 @@ def ho2ax_single(ho: np.ndarray) -> np.ndarray:
     ])
     # fmt: on
     ho_magnitude = np.sum(ho**2)
-    if (ho_magnitude > -1e-8) and (ho_magnitude < 1e-8):
+    if (ho_magnitude > -1e-16) and (ho_magnitude < 1e-16):
         ax = np.array([0, 0, 1, 0], dtype=np.float64)
     else:
         # Convert the magnitude to the rotation angle
